@@ -51,8 +51,9 @@ ASSUMPTIONS = [
     "mass and centre of mass of a link are recovered from its G itself: m = G[3,3], r = vee(G[0:3,3:6]) / m",
     "1e-8 relative to the magnitude of the quantities entering the identity (sum of |M||qdd|, |c|, |g|, |J^T F|, |tau|; "
     "for accelerations that sum divided by lambda_min(M)); 1e-6 where a finite difference of M or P is involved; "
-    "5e-6 instead when a joint value lies in the open NearZero band (1e-9, 2e-6) and the oracle's exact kinematics "
-    "are compared with the library's (MatrixExp6 drops such rotations by design)",
+    "5e-6 per joint value in the open NearZero band (1e-11, 2e-6) instead, wherever the oracle's exact kinematics (or "
+    "two library implementations that linearise differently) are compared (MatrixExp6 drops rotations below 1e-6 by "
+    "design); plus 1e-290 absolute against denormal underflow",
     "energy: E = 1/2 qd^T M_oracle qd + P_oracle sampled every 20 steps; a drift above 1e-6*max(1, E scale) is only a "
     "violation if it persists (does not shrink like an integration error) with 400 x 5e-4 s and 800 x 2.5e-4 s",
     "inverseDynamicsC hard-codes 6 joints and is only exercised on 6-joint arms",
@@ -65,7 +66,9 @@ PI = math.pi
 TIGHT = 1e-8
 FDTOL = 1e-6
 LOOSE = 5e-6
-BAND_LO, BAND_HI = 1e-9, 2e-6
+# The library's MatrixExp6 drops rotations below 1e-6 (NearZero).  DESIGN 1.3 uses the band (1e-9, 2e-6); at this
+# property's 1e-8 a dropped 1e-9 rad rotation is already visible (measured 1.2e-9 of |M|), so the band starts at 1e-11.
+BAND_LO, BAND_HI = 1e-11, 2e-6
 
 _lib = {}
 
@@ -188,8 +191,20 @@ def potential(S, homes, Gl, g, q):
 # helpers
 # ------------------------------------------------------------------------------------------------
 
+def band_count(q):
+    return sum(1 for x in np.asarray(q).reshape(-1) if BAND_LO < abs(float(x)) < BAND_HI)
+
+
 def in_band(q):
-    return any(BAND_LO < abs(float(x)) < BAND_HI for x in np.asarray(q).reshape(-1))
+    return band_count(q) > 0
+
+
+def rtol_for(q, tight=None):
+    """Relative tolerance for an identity that compares the oracle's exact kinematics with the library's: the stated
+    one, or 5e-6 per joint value in the NearZero band (each dropped rotation of < 2e-6 rad moves everything downstream
+    by that much; quadratic forms in it change by at most twice that)."""
+    k = band_count(q)
+    return (TIGHT if tight is None else tight) if k == 0 else LOOSE * k
 
 
 def vec_out(x, n, what):
@@ -322,7 +337,7 @@ def c_mass(case, ctx):
     ctx.label("cond(M) " + (decade(lam[-1] / lam[0]) if lam[0] > 0 else "<=0"))
     if not lam[0] > 0:
         raise Violation("MassMatrix not positive definite: lambda_min = %.6g (lambda_max %.6g)" % (lam[0], lam[-1]))
-    close(M, Mor, (LOOSE if in_band(q) else TIGHT) * sc, "MassMatrix vs sum_i J_i^T G_i J_i")
+    close(M, Mor, rtol_for(q) * sc, "MassMatrix vs sum_i J_i^T G_i J_i")
 
 
 def c_fd_id(case, ctx):
@@ -358,7 +373,7 @@ def c_decomposition(case, ctx):
     tau = vec_out(sut(m.InverseDynamics, q, qd, qdd, g, F, Ml, Gl, S), n, "InverseDynamics")
     close(tau, t.M @ qdd + t.c + t.g + t.e, TIGHT * t.scale(qdd, tau), "InverseDynamics vs M qdd + c + g + J^T F (library terms)")
     # the tip term against the oracle's body Jacobian of the tool frame
-    rtol = LOOSE if in_band(q) else TIGHT
+    rtol = rtol_for(q)
     close(t.e, t.Jt.T @ F, rtol * t.s_e, "EndEffectorForces vs J_b(tool)^T Ftip")
     # and the whole with the oracle's M and J^T where the library's c and g are kept
     close(tau, t.Mor @ qdd + t.c + t.g + t.Jt.T @ F, rtol * t.scale(qdd, tau),
@@ -381,7 +396,7 @@ def c_passivity(case, ctx):
     rhs = 0.5 * float(qd @ Mdot @ qd)
     sc = norm1(qd * c) + norm1(qd) ** 3 * amax(mass_oracle(S, homes, Gl, q))
     ctx.note("qd.c", lhs)
-    tol = (LOOSE if in_band(q) else FDTOL) * sc + UNDERFLOW
+    tol = rtol_for(q, FDTOL) * sc + UNDERFLOW
     if not math.isfinite(lhs) or abs(lhs - rhs) > tol:
         raise Violation("qd.c = %.12g but 1/2 qd^T Mdot qd = %.12g (diff %.3g > tol %.3g)" % (lhs, rhs, abs(lhs - rhs), tol))
 
@@ -396,7 +411,7 @@ def c_gravity(case, ctx):
     glib = vec_out(sut(mr().GravityForces, q, g, Ml, Gl, S), n, "GravityForces")
     grad = np.array([float(O.richardson(lambda x: potential(S, homes, Gl, g, x), q, i)) for i in range(n)])
     sc = gravity_scale(S, homes, Gl, g, q)
-    close(glib, grad, (LOOSE if in_band(q) else FDTOL) * sc, "GravityForces vs grad P")
+    close(glib, grad, rtol_for(q, FDTOL) * sc, "GravityForces vs grad P")
 
 
 def _rk4_energy(S, Ml, Gl, homes, g, q0, qd0, steps, dt):
@@ -581,7 +596,7 @@ def c_arm_id_agree(case, ctx):
     q, qd, qdd, g, F = arm_state(case)
     t = Terms(rig.S, rig.Mlist, rig.Glist, rig.homes, q, qd, g, F)
     ref = vec_out(sut(mr().InverseDynamics, q, qd, qdd, g, F, rig.Mlist, rig.Glist, rig.S), n, "fmr.InverseDynamics")
-    tol = (LOOSE if in_band(q) else TIGHT) * t.scale(qdd, ref)
+    tol = rtol_for(q) * t.scale(qdd, ref)
     out = rig.call(arm.inverseDynamics, case, q, qd, qdd)
     if not isinstance(out, tuple) or len(out) != 5:
         raise Violation("Arm.inverseDynamics: expected (tau, A, V, Vdot, F)")
@@ -593,7 +608,7 @@ def c_arm_id_agree(case, ctx):
             raise Violation("Arm.inverseDynamicsC: expected (tau, M, G)")
         close(vec_out(outc[0], n, "Arm.inverseDynamicsC"), ref, tol, "Arm.inverseDynamicsC vs fmr.InverseDynamics")
         Mc = np.asarray(outc[1], dtype=float)
-        close(Mc, t.M, (LOOSE if in_band(q) else TIGHT) * amax(t.M), "mass matrix returned by inverseDynamicsC vs fmr.MassMatrix")
+        close(Mc, t.M, rtol_for(q) * amax(t.M), "mass matrix returned by inverseDynamicsC vs fmr.MassMatrix")
 
 
 def c_arm_id_emr(case, ctx):
@@ -604,7 +619,7 @@ def c_arm_id_emr(case, ctx):
     q, qd, qdd, g, F = arm_state(case)
     t = Terms(rig.S, rig.Mlist, rig.Glist, rig.homes, q, qd, g, F)
     ref = vec_out(sut(mr().InverseDynamics, q, qd, qdd, g, F, rig.Mlist, rig.Glist, rig.S), n, "fmr.InverseDynamics")
-    tol = (LOOSE if in_band(q) else TIGHT) * t.scale(qdd, ref)
+    tol = rtol_for(q) * t.scale(qdd, ref)
     tau = rig.call(arm.inverseDynamicsEMR, case, q, qd, qdd)
     close(vec_out(tau, n, "Arm.inverseDynamicsEMR"), ref, tol, "Arm.inverseDynamicsEMR vs fmr.InverseDynamics")
     out = rig.call(arm.inverseDynamics, case, q, qd, qdd)
@@ -622,7 +637,7 @@ def c_arm_mass(case, ctx):
     Mmr = np.asarray(sut(mr().MassMatrix, q, rig.Mlist, rig.Glist, rig.S), dtype=float)
     Mor = mass_oracle(rig.S, rig.homes, rig.Glist, q)
     sc = amax(Mor)
-    tol = (LOOSE if in_band(q) else TIGHT) * sc
+    tol = rtol_for(q) * sc
     close(M, Mmr, tol, "Arm.massMatrix vs fmr.MassMatrix")
     close(M, Mor, tol, "Arm.massMatrix vs sum_i J_i^T G_i J_i")
     close(M, M.T, TIGHT * sc, "Arm.massMatrix symmetric")
@@ -640,7 +655,6 @@ def _arm_fd(case, ctx, which):
     tau_in = np.asarray(case["tau"], dtype=float)
     t = Terms(rig.S, rig.Mlist, rig.Glist, rig.homes, q, qd, g, F)
     lam = t.lam_min()
-    band = in_band(q)
 
     def fd(tau):
         if which == "E":
@@ -656,14 +670,14 @@ def _arm_fd(case, ctx, which):
     name = "forwardDynamicsE" if which == "E" else "forwardDynamics"
     tau_id = idyn(qdd)
     sc = max(amax(qdd), t.scale(qdd, tau_id) / lam)
-    close(fd(tau_id), qdd, (LOOSE if band else TIGHT) * sc, "Arm.%s(Arm.inverseDynamics(qdd)) vs qdd" % name)
+    close(fd(tau_id), qdd, rtol_for(q) * sc, "Arm.%s(Arm.inverseDynamics(qdd)) vs qdd" % name)
     qdd_fd = fd(tau_in)
-    close(idyn(qdd_fd), tau_in, (LOOSE if band else TIGHT) * t.scale(qdd_fd, tau_in),
+    close(idyn(qdd_fd), tau_in, rtol_for(q) * t.scale(qdd_fd, tau_in),
           "Arm.inverseDynamics(Arm.%s(tau)) vs tau" % name)
     # and against the MR forward dynamics on the corresponding lists
     ref = vec_out(sut(mr().ForwardDynamics, q, qd, tau_in, g, F, rig.Mlist, rig.Glist, rig.S), n, "fmr.ForwardDynamics")
     sc2 = max(amax(ref), t.scale(ref, tau_in) / lam)
-    close(qdd_fd, ref, (LOOSE if band else TIGHT) * sc2, "Arm.%s vs fmr.ForwardDynamics" % name)
+    close(qdd_fd, ref, rtol_for(q) * sc2, "Arm.%s vs fmr.ForwardDynamics" % name)
 
 
 def c_arm_fd(case, ctx):
@@ -683,7 +697,7 @@ def joint_values(lim=PI, tiny=True):
                         st.sampled_from([0.0, lim, -lim, min(lim, PI / 2), -min(lim, PI / 2), 1.0, -1.0]))
     if not tiny:
         return generic
-    small = st.one_of(G.signed_log_uniform(1e-9, 1e-4),
+    small = st.one_of(G.signed_log_uniform(1e-12, 1e-4),
                       st.sampled_from([1e-6, -1e-6, math.nextafter(1e-6, 0), math.nextafter(1e-6, 1), 5e-7, 2e-6]))
     return st.integers(0, 39).flatmap(lambda k: small if k == 39 else generic)
 
